@@ -55,6 +55,7 @@ type c06Run struct {
 	exactHits    int      // header / trailer blocks of exactly the targeted length (adaptive scripts)
 	held         int      // operations issued while a writer was parked inside a DATA frame
 	pairs        int      // pairs of requests opened with the delay hook
+	late         int      // DATA frames sent after Body.Close and before the stream's teardown
 	glued        int      // SETTINGS frames sent in one segment with the next peer frame
 	streamOwed   int64    // worst stream-level credit owed on a response that is still being read
 	streamOwedAt uint32
@@ -200,7 +201,27 @@ func c06ExecMode(t testing.TB, cfg c06Cfg, script []c06Op, gen func(e *c06Env, n
 				}
 			case "x":
 				if st2.res != nil && !st2.closedB {
-					tok = e.feedHeld(st.id, op.a, op.mid, "x", st2.id, 0)
+					tok = e.feedHeld(st.id, op.a, op.mid, "x", st2.id, op.b)
+					if e.lateTok != "" {
+						// two operations for the model: the close, then DATA on the forgotten stream; the
+						// WINDOW_UPDATE that returns that frame's octets is the second one's
+						fs := strings.Split(e.take(true), ",")
+						second, wf := "-", fmt.Sprintf("W0+%d", e.lateW)
+						for i, f := range fs {
+							if f == wf {
+								second = wf
+								fs = append(fs[:i:i], fs[i+1:]...)
+								break
+							}
+						}
+						if len(fs) == 0 || fs[0] == "X" || fs[0] == "T" {
+							fs = append([]string{"-"}, fs...)
+						}
+						run.tokens = append(run.tokens, tok, e.lateTok)
+						run.transcript = append(run.transcript, strings.Join(fs, ","), second)
+						run.late++
+						continue
+					}
 				}
 			case "c":
 				tok = e.feedHeld(st.id, op.a, op.mid, "c", st2.id, 0)
@@ -889,15 +910,16 @@ func c06Directed() []c06Script {
 	}
 	for _, c := range []c06Cfg{def, small} {
 		add("held-close-"+c.name, c, S(c06Set(xhttp2.SettingInitialWindowSize, 1<<20)), wu(-1, 1<<20), open(400000, true, 0),
-			open(0, true, 0), ph(1, false), pd(1, 16384, 0, false), pd(1, 5000, 0, false), held(0, "x", 1, 0, false),
+			open(0, true, 0), ph(1, false), pd(1, 16384, 0, false), pd(1, 5000, 0, false), held(0, "x", 1, 1, false),
 			open(0, true, 0), ph(2, false), pd(2, 8192, 0, false), pd(2, 8192, 7, true), held(0, "x", 2, 0, true),
 			open(0, true, 0), ph(3, false), pd(3, 16384, 0, false), held(0, "r", 3, 5000, false), held(0, "r", 3, 1000, true), held(0, "r", 3, 3000, false), held(0, "x", 3, 0, false),
 			open(0, true, 0), ph(4, false), pd(4, 4095, 0, false), held(0, "x", 4, 0, true),
-			open(0, true, 0), ph(5, false), pd(5, 6000, 0, false), rd(5, 6000), held(0, "x", 5, 0, false),
-			open(100, true, 0), held(0, "c", 6, 0, false),
-			open(0, true, 0), ph(7, false), pd(7, 9000, 0, true), held(0, "r", 7, 100000, true),
+			open(0, true, 0), ph(5, false), pd(5, 6000, 0, false), rd(5, 6000), held(0, "x", 5, 1, false),
+			open(0, true, 0), ph(6, false), held(0, "x", 6, 1, true), open(0, true, 0), ph(7, false), pd(7, 100, 0, false), held(0, "x", 7, 1, true),
+			open(100, true, 0), held(0, "c", 8, 0, false),
+			open(0, true, 0), ph(9, false), pd(9, 9000, 0, true), held(0, "r", 9, 100000, true),
 			// several later requests still get through a peer that enforces its windows
-			open(0, true, 0), ph(8, false), pd(8, 16384, 0, false), pd(8, 16384, 0, true), rd(8, 100000), ping)
+			open(0, true, 0), ph(10, false), pd(10, 16384, 0, false), pd(10, 16384, 0, true), rd(10, 100000), ping)
 	}
 	// 24. a request queued for a MAX_CONCURRENT_STREAMS slot while the peer changes its SETTINGS:
 	//     what the stream is opened with (send window, frame size, scratch buffer) is what is in
@@ -1178,7 +1200,7 @@ func c06Gen(r *rand.Rand, maxOps int) func(e *c06Env, n int) *c06Op {
 					var cands []c06Op
 					for _, i := range closable {
 						if i != fs {
-							cands = append(cands, c06Op{kind: "h", s: fs, a: nn, sub: "x", s2: i}, c06Op{kind: "h", s: fs, a: nn, sub: "x", s2: i})
+							cands = append(cands, c06Op{kind: "h", s: fs, a: nn, sub: "x", s2: i}, c06Op{kind: "h", s: fs, a: nn, sub: "x", s2: i, b: 1})
 						}
 					}
 					for _, i := range readable {
